@@ -84,4 +84,9 @@ pub mod v5 {
     #[cfg(kani)]
     #[path = "../../../weave/src/v5/shared.rs"]
     pub(crate) mod shared;
+    // the synchronous admission block of the v5 dispatcher's PUBLISH arm (see lib/weave.py gen_v5_pubgate)
+    #[cfg(kani)]
+    pub(crate) mod pubgate {
+        include!("../../weave/gen_v5_pubgate.rs");
+    }
 }
